@@ -129,6 +129,23 @@ Theorem C03_memcached_udp_keyed_isolation : forall i tr,
   obs i (svc_run SVC_MCUDP tr) = obs i (svc_run SVC_MCUDP (own i tr)).
 Proof. exact mcudp_frame. Qed.
 
+(* the server: the service a connection is handed to is determined by the configuration and the
+   connection's destination - characterised without reference to the order of the port table
+   (the implementation walks a Go map) - whatever connections were served before *)
+Theorem C03_route_spec : forall cfg d s,
+  (exists e, In e cfg /\ pe_match d e = true) ->
+  (forall e, In e cfg -> pe_match d e = true -> pe_svc e = s) ->
+  route cfg d = Some s.
+Proof. exact route_spec. Qed.
+
+Theorem C03_route_none : forall cfg d,
+  (forall e, In e cfg -> pe_match d e = false) -> route cfg d = None.
+Proof. exact route_none. Qed.
+
+Theorem C03_server_history_irrelevant : forall cfg h p,
+  nth_error (srv_run cfg (h ++ [p])) (length h) = Some (route cfg p).
+Proof. exact srv_history_irrelevant. Qed.
+
 (* the hypothesis is needed: clients behind one IP share the rate limiter (by design) *)
 Theorem C03_tftp_same_ip_boundary :
   ip_of 32 = ip_of 33 /\
@@ -186,6 +203,13 @@ Example C03_abandoned_transfers :
   replies_on 34 (svc_run SVC_FTP ftp_tr) = [220000; 331000; 230000; 227002].
 Proof. repeat split; vm_compute; reflexivity. Qed.
 
+(* one port number under two protocols and two hosts *)
+Example C03_route_example :
+  let cfg := [mkPE false 1 5060 1; mkPE false 2 5060 2; mkPE true 0 5060 3] in
+  srv_run cfg [mkDest true 9 5060; mkDest false 9 5060; mkDest false 2 5060; mkDest false 1 5060; mkDest false 1 80]
+  = [Some 3; None; Some 2; Some 1; None].
+Proof. vm_compute. reflexivity. Qed.
+
 (* the checker still recognises each former defect from an observation that shows it *)
 Example C03_checker_verdicts :
   let e c t a p := mkOE c t a 0 p in
@@ -231,4 +255,7 @@ Print Assumptions C03_limiter_independent.
 Print Assumptions C03_limiter_burst.
 Print Assumptions C03_limiter_checker_closed_form.
 Print Assumptions C03_memcached_udp_keyed_isolation.
+Print Assumptions C03_route_spec.
+Print Assumptions C03_route_none.
+Print Assumptions C03_server_history_irrelevant.
 Print Assumptions C03_tftp_same_ip_boundary.
